@@ -639,6 +639,11 @@ func (g *cssGen) declaration() string {
 	case 15:
 		name = "flex"
 		val = r.Pick([]string{"none", "auto", "1", "0", "1 1", "1 1 auto", "0 0 auto", "1 1 0", "1 1 0px", "1 1 0%", "2 2 10%", "0 1 auto", "1 0px", "initial", "1 30px", "0 0 0", "1 1 0em", "auto 1 1"})
+		if r.Chance(1, 3) {
+			// every factor notation: several digits, fractions, exponents
+			f := func() string { return r.Pick([]string{"0", "1", "2", "10", "12", "1.5", "0.5", ".5", "1e1", "100", "1.0", "15"}) }
+			val = f() + " " + f() + " " + r.Pick([]string{"0", "0px", "0%", "auto", "10px", "50%", "0em", "content"})
+		}
 	case 16:
 		name = r.Pick([]string{"flex-basis", "flex-grow", "flex-shrink", "order", "z-index", "opacity", "line-height"})
 		switch name {
@@ -711,7 +716,9 @@ func (g *cssGen) declaration() string {
 		}
 	case 23:
 		name = "content"
-		val = r.Pick([]string{"\"\"", "''", "'a'", "\"a\\\"b\"", "'it\\'s'", "\"x  y\"", "'\\201C'", "\"\\a \"", "counter(c)", "attr(title)", "' (' attr(href) ')'", "none", "\"/*not a comment*/\"", "'a\\\nb'", "url(a.png)"})
+		val = r.Pick([]string{"\"\"", "''", "'a'", "\"a\\\"b\"", "'it\\'s'", "\"x  y\"", "'\\201C'", "\"\\a \"", "counter(c)", "attr(title)", "' (' attr(href) ')'", "none", "\"/*not a comment*/\"", "'a\\\nb'", "url(a.png)",
+			// escaped line breaks of every kind inside strings and quoted urls
+			"'ab\\\rcd'", "\"ab\\\r\ncd\"", "'ab\\\fcd'", "'x\\\r'", "url('image-ab\\\rcd.png')", "url(\"a\\\nb.png\")"})
 	case 24:
 		name = r.Pick([]string{"--main-color", "--x", "--Empty", "--weird", "--Size"})
 		val = r.Pick([]string{"#FF0000", " red", "0px", "calc( 1px + 2px )", "{ a: b }", "[ 1 , 2 ]", "'str  ing'", "1.0", "RED", "url( a.png )", "a  b", "0.50em", "+1", "rgb( 255 , 0 , 0 )", ""})
@@ -975,9 +982,50 @@ func C04(run *core.Run) {
 func c04Signature(v string) string {
 	switch {
 	case strings.Contains(v, ": border-color: ") && strings.Contains(v, "-color:initial;"):
-		return "css-border-color-initial-in-list"
-	case (strings.Contains(v, ": flex: ") || strings.Contains(v, ": flex-basis: ")) && strings.Contains(v, "flex-basis:0"):
-		return "css-flex-zero-basis-unit"
+		// the recorded finding: currentcolor written as initial; every other side must agree
+		if i := strings.Index(v, " means "); i >= 0 {
+			parts := strings.SplitN(v[i+7:], " -> ", 2)
+			if len(parts) == 2 {
+				re := regexp.MustCompile(`(border-[a-z]+-color):([^;]*);`)
+				a, b := map[string]string{}, map[string]string{}
+				for _, m := range re.FindAllStringSubmatch(parts[0], -1) {
+					a[m[1]] = m[2]
+				}
+				for _, m := range re.FindAllStringSubmatch(parts[1], -1) {
+					b[m[1]] = m[2]
+				}
+				ok := len(a) == 4 && len(b) == 4
+				for k, va := range a {
+					if vb := b[k]; vb != va && !(va == "currentcolor" && vb == "initial") {
+						ok = false
+					}
+				}
+				if ok {
+					return "css-border-color-initial-in-list"
+				}
+			}
+		}
+	case strings.Contains(v, ": flex: ") || strings.Contains(v, ": flex-basis: "):
+		// the recorded finding is only the unit of a zero basis: grow and shrink must agree, both bases be zero
+		if i := strings.Index(v, " means "); i >= 0 {
+			parts := strings.SplitN(v[i+7:], " -> ", 2)
+			if len(parts) == 2 {
+				get := func(s, k string) string {
+					m := regexp.MustCompile(k + `:([^;]*);`).FindStringSubmatch(s)
+					if m == nil {
+						return ""
+					}
+					return m[1]
+				}
+				zero := func(b string) bool {
+					return b != "" && strings.TrimRight(strings.TrimLeft(b, "0"), "%abcdefghijklmnopqrstuvwxyz") == "" && strings.HasPrefix(b, "0")
+				}
+				a, b := parts[0], parts[1]
+				if get(a, "flex-grow") == get(b, "flex-grow") && get(a, "flex-shrink") == get(b, "flex-shrink") && zero(get(a, "flex-basis")) && zero(get(b, "flex-basis")) {
+					return "css-flex-zero-basis-unit"
+				}
+			}
+		}
 	}
 	return ""
 }
